@@ -11,6 +11,7 @@ package main
 //  content and format, and contents of the wrong length / alphabet / check digit are refused.
 
 import (
+	"unicode/utf8"
 	"fmt"
 	"strings"
 
@@ -429,6 +430,70 @@ func c03Rejects(r *Rng, name string) []c03Case {
 		for _, s := range []string{"A12", "12B", "A12T", "T12A", "N123", "12*", "A1A2", "1a2", "12 3", "A", "12\x80", "AB12CD", "T"} {
 			add(s, "", "guards/alphabet")
 		}
+	}
+	// characters of the right Unicode CLASS but outside the symbology's (ASCII) alphabet: non-ASCII decimal digits
+	// (Arabic-Indic, Devanagari, fullwidth, mathematical) for the numeric symbologies, non-ASCII upper-case letters and
+	// fullwidth forms for the alphanumeric ones — at the lengths (counted in characters AND in bytes) the writer accepts.
+	digitSets := []string{"٠١٢٣٤٥٦٧٨٩", "०१२३४५६७८९", "０１２３４５６７８９", "𝟎𝟏𝟐𝟑𝟒𝟓𝟔𝟕𝟖𝟗"}
+	mixDigits := func(n int, byBytes bool) string {
+		for try := 0; try < 50; try++ {
+			set := []rune(digitSets[r.Intn(len(digitSets))])
+			var sb strings.Builder
+			foreign := 0
+			cnt := func() int {
+				if byBytes {
+					return sb.Len()
+				}
+				return utf8.RuneCountInString(sb.String())
+			}
+			for cnt() < n {
+				if r.Chance(0.4) {
+					sb.WriteRune(set[r.Intn(10)])
+					foreign++
+				} else {
+					sb.WriteByte(byte('0' + r.Intn(10)))
+				}
+			}
+			if cnt() == n && foreign > 0 {
+				return sb.String()
+			}
+		}
+		return "١"
+	}
+	var lens []int
+	switch name {
+	case "ean13":
+		lens = []int{12, 13}
+	case "ean8":
+		lens = []int{7, 8}
+	case "upca":
+		lens = []int{11, 12}
+	case "upce":
+		lens = []int{7, 8}
+	case "itf":
+		lens = []int{2, 4, 6, 8, 14}
+	}
+	for _, l := range lens {
+		for k := 0; k < 4; k++ {
+			add(mixDigits(l, false), "", "unicode-digits")
+			add(mixDigits(l, true), "", "unicode-digits")
+		}
+	}
+	switch name {
+	case "code39", "code93", "codabar":
+		for _, s := range []string{"ÄB", "ΩMEGA", "ＡＢＣ", "A١2", "１２３", "Ⅻ", "A\u2212B", "İ"} {
+			t := s
+			if name == "codabar" {
+				t = "A" + s + "B"
+			}
+			add(t, "", "unicode-class")
+		}
+	case "code128":
+		for _, s := range []string{"ＡＢＣ", "A١2", "１２３４", "Ωx", "\u00f5A", "A\u0100"} {
+			add(s, "", "unicode-class")
+		}
+		add("１２３４", "C", "unicode-class")
+		add("12٣٤", "C", "unicode-class")
 	}
 	return out
 }
